@@ -50,7 +50,7 @@ for _n in ("qa", "qb"):
 def pure_pred(name, v):
     if name.startswith("p"):
         m = int(name[1:])
-        return isinstance(v, int) and not isinstance(v, bool) and 0 <= v <= 2 and bool(m >> v & 1)
+        return isinstance(v, int) and 0 <= v <= 2 and bool(m >> v & 1)
     return getattr(v, "tag", None) == name
 
 
